@@ -21,8 +21,8 @@ MANIFEST = {
             "good / restarts at the first execution slot per repeat_kill_chain, failure branches included); actions_concluded is "
             "switched on exactly in an end-of-chain slot; gaps between consecutive execution slots in [max 1 (f-v), max 1 (f+v)] and "
             "between consecutive ACTING ticks k such gaps; TAP003: the stage advances only after the run's own success response, "
-            "EXPLOIT.probability<=0 => never an ACL command; every action runs on the selected start node (element of starting_nodes, "
-            "or the default) or the configured C2 server, scan targets are configured network addresses / the previous live hosts / the "
+            "EXPLOIT.probability<=0 => never an ACL command; every TAP001 action of DOWNLOAD..C2 runs on the selected start node (element "
+            "of starting_nodes, or the default) and every c2-server-* action on the configured C2 server, scan targets are configured network addresses / the previous live hosts / the "
             "selected target, TAP003 credentials, account changes and ACL fields come from the configuration (ACL rules in configured "
             "order). RandomAgent returns the sampled entry of its action map. Tie: enums, dispatch order, comparators, defaults, the "
             "vector shape, get_action signatures, the empty-history guard, the EXPLOIT trial guard, the source expression of every TAP "
@@ -34,13 +34,11 @@ MANIFEST = {
     "note": "C19-specific: numpy's Generator.choice and random.randint/choice/random are modelled, not verified (the never-zero theorem for "
             "the binary search assumes only a total order without NaN, x+0=x, 0/x=0 and a sorted cdf); probabilities in the rig are "
             "dyadic so that float comparison is exact (sums off 1 by multiples of 2^-30); the live-host list a ping scan returns is "
-            "opaque simulator data; TAP001: that the DOWNLOAD..C2 actions run on the start node and the c2-server-* actions on the C2 "
-            "server (rather than on one of the two) is checked by the rig's oracle and the differential, the theorem bounds the node to "
-            "the two.",
+            "opaque simulator data.",
     "technique": "Lean 4 theorems over executable agent models; models tied by regenerated tables and a differential rig",
     "design_ref": "5/C19",
 }
-MODULES = ["PrimaiteModel.Props.C19", "PrimaiteModel.Props.C19Sched", "PrimaiteModel.Props.C19Run", "PrimaiteModel.Props.C19Params", "PrimaiteModel.Props.C19Sampler"]
+MODULES = ["PrimaiteModel.Props.C19", "PrimaiteModel.Props.C19Sched", "PrimaiteModel.Props.C19Run", "PrimaiteModel.Props.C19Params", "PrimaiteModel.Props.C19Sampler", "PrimaiteModel.Props.C19Nodes"]
 EXE = "drv_c19"
 KINDS = ["periodic", "prob", "probn", "tap1", "tap3", "rand"]
 
